@@ -231,7 +231,7 @@ func runE2ECancel(sx, outp string) {
 	dir, _ = filepath.Abs(dir)
 	defer os.RemoveAll(dir)
 	type plan struct{ kind, stall string }
-	plans := []plan{{"socks", "reply"}, {"elastic", "info"}, {"elastic", "aliases"}, {"docker", "ping"}, {"docker", "info"},
+	plans := []plan{{"socks", "reply"}, {"elastic", "info"}, {"elastic", "aliases"}, {"docker", "ping"}, {"docker", "info"}, {"docker", "version"},
 		// the address list comes from a producer on stdin that has not finished (a pipe that stays open)
 		{"socks", "stdin-open"}, {"elastic", "stdin-open"}}
 	res := make([]cancelObs, len(plans))
@@ -274,7 +274,9 @@ func runE2ECancel(sx, outp string) {
 					stallHere := (pl.kind == "elastic" && (pl.stall == "info" || pl.stall == "stdin-open") && path == "/") ||
 						(pl.kind == "elastic" && pl.stall == "aliases" && path != "/") ||
 						(pl.kind == "docker" && pl.stall == "ping" && strings.HasSuffix(path, "/_ping")) ||
-						(pl.kind == "docker" && pl.stall == "info" && strings.HasSuffix(path, "/info"))
+						(pl.kind == "docker" && pl.stall == "info" && strings.HasSuffix(path, "/info")) ||
+						// the LAST request of the exchange: ping and info have been answered
+						(pl.kind == "docker" && pl.stall == "version" && strings.HasSuffix(path, "/version"))
 					if stallHere {
 						seen <- struct{}{}
 						select {
